@@ -1,4 +1,4 @@
-//@@ unit props=C13,C20,C06
+//@@ unit props=C13,C20,C06,C02,C18
 // Unit cfb: [MS-CFB] compound-file reader of src/cfb.rs (Cfb, Header, Sectors, Directory), verbatim text.
 #![feature(allocator_api)]
 #![allow(unused_imports, dead_code, unused_variables, unused_mut, unused_assignments)]
@@ -1126,7 +1126,7 @@ fn verif_chunks_map_collect<T, F: FnMut(&[u8]) -> T>(s: &[u8], n: usize, f: F) -
 //@@ closure 0
 -> (b: bool) ensures b == (d.name@ == name@)
 //@@ end
-//@@ fn src/cfb.rs Cfb::get_stream props=C13,C20 entry ret=res
+//@@ fn src/cfb.rs Cfb::get_stream props=C13,C20,C02,C18 entry ret=res
 //@@ sig
     requires
         old(self).wf(),
@@ -1141,7 +1141,7 @@ fn verif_chunks_map_collect<T, F: FnMut(&[u8]) -> T>(s: &[u8], n: usize, f: F) -
         !has_name(old(self).dirs(), name@) ==> (match res { Err(CfbError::StreamNotFound(s)) => s@ == name@, _ => false }),
         //# C13,C20.get_stream_io_error_flag
         (res matches Err(CfbError::Io(_)) ==> (*final(r)).io_failed()) && (res is Ok ==> (*final(r)).io_failed() == (*old(r)).io_failed()),
-        //# C13,C20.get_stream_reads_logical_stream
+        //# C13,C20,C02,C18.get_stream_reads_logical_stream
         res matches Ok(v) ==> reads_as(old(self).parsed(old(r)), name@, v@),
         //# C13.stream_lookup_independent_of_directory_order
         // every entry bearing the name denotes the returned bytes, i.e. the result does not depend on which same-named entry
@@ -1186,12 +1186,12 @@ fn verif_chunks_map_collect<T, F: FnMut(&[u8]) -> T>(s: &[u8], n: usize, f: F) -
                         }
                     }
 //@@ end
-//@@ fn src/cfb.rs Cfb::new props=C13,C20 entry ret=res
+//@@ fn src/cfb.rs Cfb::new props=C13,C20,C02,C18 entry ret=res
 //@@ sig
     ensures
         //# C13,C20.new_rejects_invalid_header
         !hdr_valid((*old(reader)).rem()) ==> res is Err,
-        //# C13,C20.new_parses_container
+        //# C13,C20,C02,C18.new_parses_container
         // (`len` is the length of the input, as every caller passes it; it bounds the DIFAT walk)
         forall|fuel: nat| #[trigger] cfb_parse((*old(reader)).rem(), fuel) is Some && len as int >= (*old(reader)).rem().len() ==> (match res {
             Ok(c) => {
